@@ -772,3 +772,78 @@ def run_lifetime(case, lt_index, libpath, timeout=30.0):
 
 def run_case(case, libpath, timeout=30.0):
     return [run_lifetime(case, i, libpath, timeout) for i in range(len(case["lifetimes"]))]
+
+
+# ------------------------------------------------------------------------------------------------ fresh interpreter (F13)
+def run_lifetime_fresh(case, lt_index, libpath, timeout=60.0, hashseed=12345):
+    """the same lifetime in a brand-new interpreter (no zygote, other PYTHONHASHSEED): import, dlopen and run from scratch"""
+    import subprocess
+    import tempfile
+    import json as _json
+    work = os.path.join(os.environ.get("RDSIM_WORK", "/verif/.work"), "fresh")
+    os.makedirs(work, exist_ok=True)
+    fd, cpath = tempfile.mkstemp(prefix="case-", suffix=".json", dir=work)
+    with os.fdopen(fd, "w", encoding="utf-8") as f:
+        _json.dump(case, f)
+    opath = cpath + ".out"
+    env = dict(os.environ)
+    env["PYTHONHASHSEED"] = str(hashseed)
+    env["STRENGTHS_VERIF"] = "1"
+    env["PYTHONPATH"] = "/verif" + (":" + env["PYTHONPATH"] if env.get("PYTHONPATH") else "")
+    t0 = time.time()
+    res = LifetimeResult()
+    try:
+        p = subprocess.run(["timeout", "-k", "5", str(int(timeout)), sys.executable, "-m", "rdsim.world", cpath, str(lt_index),
+                            libpath, opath], env=env, capture_output=True, text=True, cwd="/verif")
+        res.stderr = (p.stderr or "")[-20000:]
+        try:
+            with open(opath, "rb") as f:
+                data = f.read()
+        except FileNotFoundError:
+            data = b""
+        buf = bytearray(data)
+        while len(buf) >= 4:
+            n = struct.unpack_from("<I", buf, 0)[0]
+            if len(buf) < 4 + n:
+                break
+            obj = pickle.loads(bytes(buf[4:4 + n]))
+            del buf[:4 + n]
+            if "__mark__" in obj:
+                res.mark = obj["__mark__"]
+            elif "__boot__" in obj:
+                res.boot = obj
+            elif "__done__" in obj:
+                pass
+            elif "harness_exc" in obj:
+                res.harness_exc = obj["harness_exc"]
+            else:
+                res.events.append(obj)
+        rc = p.returncode
+        if rc == 0:
+            res.status = "ok"
+        elif rc == 124 or rc == 137:
+            res.status = "timeout"
+        elif rc == 3 or res.harness_exc:
+            res.status = "harness"
+        elif rc < 0:
+            res.status = "crash"
+            res.signal = -rc
+        else:
+            res.status = "crash"
+            res.exitcode = rc
+    finally:
+        for pth in (cpath, opath):
+            try:
+                os.unlink(pth)
+            except OSError:
+                pass
+    res.wall = time.time() - t0
+    return res
+
+
+if __name__ == "__main__":
+    # python -m rdsim.world <case.json> <lifetime index> <lib> <out file>
+    import json as _json
+    _case = _json.load(open(sys.argv[1], encoding="utf-8"))
+    _fd = os.open(sys.argv[4], os.O_WRONLY | os.O_CREAT | os.O_TRUNC, 0o600)
+    _child_main(_case, int(sys.argv[2]), sys.argv[3], _fd, 2)
